@@ -115,7 +115,7 @@ def build_go():
         return
     # the harness module points at REPO through a replace directive and inherits REPO's own replaces
     gomod = os.path.join(hdir, "go.mod")
-    txt = open(gomod).read()
+    txt = _read(gomod)   # absent in a fresh worktree (git-ignored)
     reps = re.findall(r"^replace\s+(\S+\s+=>\s+\S+\s+\S+)\s*$", open(os.path.join(REPO, "go.mod")).read(), re.M)
     new = ("module verif/harness\n\ngo 1.25.5\n\nrequire github.com/ysugimoto/falco/v2 v2.0.0\n\n"
            "replace github.com/ysugimoto/falco/v2 => %s\n" % REPO
@@ -131,7 +131,7 @@ def build_go():
         rc, out = sh(["go", "build"] + tags + ["-o", os.path.join(BUILD, target), pkg], cwd=hdir, env=GOENV, timeout=900)
         if rc != 0:
             raise BuildError("go build %s failed:\n%s" % (target, out))
-    if REPO != "/repo":   # keep /verif clean when VERIF_REPO points at a scratch tree
+    if REPO != "/repo" and txt is not None:   # keep /verif clean when VERIF_REPO points at a scratch tree
         open(gomod, "w").write(txt)
     open(_stamp("go"), "w").write(key)
 
